@@ -130,6 +130,10 @@ def callback_model(T):
             else:
                 s.trail.append('callback:left-timer-alone')
             s.ghost['calls'] = s.ghost['calls'] + 1
+            # the callback takes time: the clock read after it may be later than any read taken before it
+            later = fresh(Real, 'now_after_callback')
+            s.assume(later >= s.ghost['now'])
+            s.ghost['now'] = later
             r = VOpaque(hint='r')
             s.ghost['cb_ret'] = r                   # what the callback returned / whether it stopped its own timer: the tick's
             s.ghost['cb_stopped'] = lift(stops)     # postcondition says when the timer goes on
